@@ -363,10 +363,13 @@ def trip_level(binary, srcfn):
         return None
     while hi - lo > max(1, lo // 200):
         mid = (lo + hi) // 2
-        if run_src(binary, srcfn(mid))[0] == SOE:
+        o = run_src(binary, srcfn(mid), cpu_s=20)[0]
+        if o == SOE:
             hi = mid
-        else:
+        elif o == "ok":
             lo = mid
+        else:
+            return None     # a shape whose running time is not linear in the limit: no per-level figure
     return hi
 
 
